@@ -418,23 +418,23 @@ where
             let a: GenericArray<E, N> = arr(0);
             start = track::log_len();
             match form {
-                0 => finish_ga(catch(|| a.map(f1!(rec, E)))),
+                0 => finish_ga(catch(|| a.map(f1!(rec, U)))),
                 1 => {
-                    let r = finish_ga(catch(|| (&a).map(f1!(rec, E))));
+                    let r = finish_ga(catch(|| (&a).map(f1!(rec, U))));
                     sources = ids(a.iter());
                     std::mem::forget(a);
                     r
                 }
                 2 => {
                     let mut a = a;
-                    let r = finish_ga(catch(|| (&mut a).map(f1!(rec, E))));
+                    let r = finish_ga(catch(|| (&mut a).map(f1!(rec, U))));
                     sources = ids(a.iter());
                     std::mem::forget(a);
                     r
                 }
                 _ => {
                     let b = Box::new(a);
-                    finish_box(catch(|| b.map(f1!(rec, E))))
+                    finish_box(catch(|| b.map(f1!(rec, U))))
                 }
             }
         }
@@ -716,7 +716,7 @@ where
         sources.retain(|x| created.contains(x));
         let mut accounted: Vec<i64> = dropped.clone();
         accounted.extend(&handed);
-        accounted.extend(&out.result.iter().copied().filter(|_| op != 2 && op != 7 && op != 8).collect::<Vec<_>>());
+        accounted.extend(&out.result.iter().copied().filter(|_| U::TRACKED && op != 2 && op != 7 && op != 8).collect::<Vec<_>>());
         accounted.extend(&sources);
         accounted.sort();
         if created != accounted {
